@@ -375,7 +375,8 @@ def statics(asts):
             # is it at namespace scope or a static local / static member?
             in_function = any(x in ("#CompoundStmt", "#DeclStmt") for x in p)
             sc = n.get("storageClass")
-            is_static_local = in_function and sc == "static"
+            # a block-scope variable declared `static` or `thread_local` outlives the call (static / thread storage duration)
+            is_static_local = in_function and (sc == "static" or n.get("tls") is not None)
             if in_function and not is_static_local:
                 continue
             if "#ParmVarDecl" in p:
@@ -543,6 +544,12 @@ def cexpr(ast, n, params):
                 break
         if name == "?":
             return ["CUnknown", "unresolved-call"]
+        if name == "compare":
+            # an overload set: the callee is named by the parameter type overload resolution selected
+            for m, _ in walk(callee):
+                if m.get("kind") == "DeclRefExpr":
+                    name = "compare(%s)" % first_param(m.get("referencedDecl", {}).get("type", {}).get("qualType", ""))
+                    break
         return ["CCall", "::" + name, ["CThis"], [cexpr(ast, a, params) for a in ch[1:]]]
     return ["CUnknown", str(k)]
 
@@ -608,6 +615,79 @@ def _returned(ast, st, params):
     if st.get("kind") == "ReturnStmt" and children(st):
         return cexpr(ast, children(st)[0], params)
     return None
+
+
+def first_param(fn_type):
+    """'int (const ipr::String &, const ipr::String &)' -> 'ipr::String'; pointers keep their star"""
+    m = re.match(r"[^(]*\(([^,)]*)", fn_type)
+    t = m.group(1) if m else "?"
+    t = t.replace("const ", "").replace("&", "").strip()
+    return re.sub(r"\s+\*", "*", t)
+
+
+def compare_fns(ast):
+    """the overloads of impl::compare (the leaf comparisons every table comparator ends in), keyed by the type they compare, as
+    expression trees; rows are keyed ::compare(<type>)"""
+    rows = {}
+    for n, p in ast.nodes:
+        if n.get("kind") != "FunctionDecl" or n.get("name") != "compare" or not has_body(n):
+            continue
+        names = [x for x in p if isinstance(x, str)]
+        if names[:2] != ["ipr", "impl"]:
+            continue
+        key = "::compare(%s)" % first_param(n.get("type", {}).get("qualType", ""))
+        params = [c.get("name") for c in children(n, "ParmVarDecl")]
+        stmts = children(body_of(n))
+        body = _returned(ast, stmts[0], params) if len(stmts) == 1 else None
+        if body is None and len(stmts) == 2 and stmts[0].get("kind") == "IfStmt":
+            # if (auto c = E1) return c; return E2;
+            ic = children(stmts[0])
+            if len(ic) == 3 and ic[0].get("kind") == "DeclStmt" and children(ic[0]) and children(ic[0])[0].get("kind") == "VarDecl":
+                var = children(ic[0])[0]
+                then = ic[2]
+                if then.get("kind") == "CompoundStmt" and len(children(then)) == 1:
+                    then = children(then)[0]
+                refs = [m for m, _ in walk(then) if m.get("kind") == "DeclRefExpr"]
+                e2 = _returned(ast, stmts[1], params)
+                if then.get("kind") == "ReturnStmt" and len(refs) == 1 and refs[0].get("referencedDecl", {}).get("id") == var.get("id") \
+                        and children(var) and e2 is not None:
+                    body = ["CLex", cexpr(ast, children(var)[-1], params), e2]
+        if body is None:
+            body = ["CUnknown", "statements:%d" % len(stmts)]
+        if key in rows and rows[key]["body"] != body and "CUnknown" not in json.dumps(body):
+            body = ["CUnknown", "definitions-differ"]
+        if key not in rows or "CUnknown" in json.dumps(rows[key]["body"]):
+            rows[key] = {"nparams": len(params), "body": body}
+    # comparisons of scalars and addresses (the std::less template) stay primitive: no row
+    return {k: v for k, v in rows.items() if "CUnknown" not in json.dumps(v["body"])}
+
+
+def compare_calls(ast):
+    """every resolved call of impl::compare: the static type of its first operand (before any conversion to a base class) and the
+    type compared by the overload that overload resolution selected"""
+    cnt = {}
+
+    def orig_type(a):
+        while a.get("kind") == "ImplicitCastExpr" and children(a):
+            a = children(a)[0]
+        return a.get("type", {}).get("qualType", "?")
+    for n, p in ast.nodes:
+        if n.get("kind") != "CallExpr":
+            continue
+        ch = children(n)
+        if len(ch) < 2:
+            continue
+        ref = None
+        for m, _ in walk(ch[0]):
+            if m.get("kind") == "DeclRefExpr":
+                ref = m.get("referencedDecl", {})
+                break
+        if not ref or ref.get("name") != "compare":
+            continue
+        callee = first_param(ref.get("type", {}).get("qualType", ""))
+        arg = first_param("(" + orig_type(ch[1]) + ")")
+        cnt[(arg, callee)] = cnt.get((arg, callee), 0) + 1
+    return [{"operand": a, "overload": c, "calls": k} for (a, c), k in sorted(cnt.items())]
 
 
 def impl_inline_ops(ast, wanted=(("Elementary_substitution", "operator[]"),)):
@@ -962,6 +1042,32 @@ def raw_derefs(ast):
     return {k: sorted(v) for k, v in sorted(rows.items())}
 
 
+def noexcept_refusing(ast):
+    """functions of namespace ipr declared noexcept whose body calls something or throws: a refusal raised inside such a function
+    cannot reach the caller as std::logic_error (the program is terminated instead)"""
+    rows = {}
+    for n, p in ast.nodes:
+        if n.get("kind") not in ("CXXMethodDecl", "FunctionDecl", "CXXConstructorDecl") or not has_body(n) or n.get("isImplicit"):
+            continue
+        names = [x for x in p if isinstance(x, str)]
+        if names[:1] != ["ipr"] or "iprv_uses" in names:
+            continue
+        qt = n.get("type", {}).get("qualType", "")
+        if "noexcept" not in qt or "noexcept(false)" in qt:
+            continue
+        calls = set()
+        for m, _ in walk(body_of(n)):
+            k = m.get("kind")
+            if k == "CXXThrowExpr":
+                calls.add("throw")
+            elif k in ("CXXMemberCallExpr", "CallExpr", "CXXOperatorCallExpr") and children(m):
+                f = _strip_casts(children(m)[0])
+                calls.add(str(f.get("name") or f.get("referencedDecl", {}).get("name") or "?"))
+        if calls:
+            rows[class_key(p) + "::" + n.get("name", "?")] = sorted(calls)
+    return dict(sorted(rows.items()))
+
+
 def seq_gets(ast):
     """the positional access function get(Index) of every Sequence implementation: which safeguards its body uses"""
     rows = {}
@@ -1115,10 +1221,13 @@ def extract(workdir):
     facts["lexicon_accessors"] = lexicon_accessors(impl)
     facts["cmp_sites"] = cmp_sites(impl)
     facts["statics"] = statics(asts)
+    facts["mutable_records"] = mutable_records(asts)
     facts["stores"] = store_facts(impl)
     facts["derived"] = derived_ops(ast_uses)
     inline_rows, facts["ctor_inits"] = impl_inline_ops(impl)
     facts["derived"].update(inline_rows)
+    facts["derived"].update(compare_fns(impl))
+    facts["compare_calls"] = compare_calls(impl)
     facts["factories"] = factories(impl)
     facts["accessor_names"] = accessor_names(impl)
     facts["iface_shapes"] = iface_shapes(impl)
@@ -1126,6 +1235,7 @@ def extract(workdir):
     facts["printer"] = printer_facts.extract(asts["io"].objs)
     facts["raw_derefs"] = raw_derefs(impl)
     facts["seq_gets"] = seq_gets(impl)
+    facts["noexcept_refusing"] = noexcept_refusing(impl)
     facts["type_bodies"] = type_bodies(impl)
     facts["type_classes"] = type_classes(impl, facts["categories"], facts["type_bodies"])
     return facts, asts
